@@ -21,6 +21,9 @@ def judge(ctx, r):
             ctx.fail(f"{r.desc} step {i}: Tdf.nBytes {s['nbytes']} != file length {len(s['after'])}", rep, ident="nBytes")
             return
         b, a = C.absfile(s["before"]), C.absfile(s["after"])
+        if a is None or b is None:
+            ctx.fail(f"{r.desc} step {i} {s['op']}: the file can no longer be parsed", rep, ident="file unreadable after " + s["op"][0])
+            return
         sizes_b = {e[1]: e[4] for e in b["live"]}
         sizes_a = {e[1]: e[4] for e in a["live"]}
         expect = len(s["before"]) - sum(sizes_b.values()) + sum(sizes_a.values())
